@@ -330,6 +330,25 @@ example :
       (b.base.objs 0).cancelled = false := by
   decide +kernel
 
+/-- Pool of the self-wait witness: worker 1 whose handler calls `ShutdownAndWait` from inside. -/
+def swPool : List ThX :=
+  [.plain (.bw 1 1 0 .call), .plain (.starter .call), .handler 0 [] [.sd 5 .call]]
+
+def swSchedule : List (Nat × Nat) :=
+  [(0, 0), (0, 0), (1, 0), (1, 0),
+   (2, 1), (2, 0), (2, 0), (2, 0), (2, 0), (2, 0), (2, 0), (2, 0), (2, 0)]
+
+/-- **Witness: `ShutdownAndWait` called from inside a handler waits for itself.**  The safety clauses hold for such a
+handler (`C20_ext_statement`), the liveness theorems do not apply: the reachable configuration below is stuck — the
+`stopOnce` body, run by the handler of worker 1, waits in `waitLast 0` for the WaitGroup that the same handler would
+leave only after the call returned.  (This is why the harness's workers shut the daemon down from inside with
+`Shutdown()`, kind `k`; it is inherent in "returns only after every started worker has returned", not a defect.) -/
+theorem C20_handler_shutdownandwait_selfwait_witness :
+    let c := runSched sysX (initX, swPool) swSchedule
+    c.2.all (fun t => (stepX c.1 t).isEmpty) = true ∧ c.1.base.sd = .waitLast 0 ∧ (c.1.base.objs 0).pc = .run ∧
+      c.1.base.tr = [.bwcall 1 1 0, .accept 1 1 0, .start 0 1 0, .sdcall 5, .cancel 0, .waitfor 0] := by
+  decide +kernel
+
 /-! ## witnesses about the code before its repairs (concrete schedules; they were replayed on the real code
 of that time by `harness/c20`, see design/C20.md) -/
 
@@ -500,6 +519,86 @@ theorem C20_wrappers_forward_all_arguments :
          ("ContextStopped", [], "context.Context")] ∧
       Hive.Gen.C20Wrap.defaultDaemonDecl = "New()" := by
   decide
+
+/-! ## The decisions of the daemon's methods (regenerated)
+
+`harness/c20/wrapgen` also extracts, for every method of `OrderedDaemon`, its *decisions* in source order: every `if` / `for`
+condition, `range` expression, `return` expression, assignment, increment and decrement, as normalised source text.  The
+synchronisation skeletons below pin the lock / atomic / WaitGroup structure; these obligations pin what the model's guards
+and updates were written against: the two stopped checks and the three refusals of `BackgroundWorker`, the order it uses
+(`len(order) > 0 && order[0] != 0`), the comparator of the sort (`>` on `shutdownOrder`, no subtraction), the contexts of the
+workers (children of `context.Background()`), `worker.shutdownOrder < prevPriority` and the two assignments of `prevPriority`
+in `stopWorkers`, the loop of `Run` (`for d.runningWorkers > 0`), the counter updates, `IsStopped` = the flag,
+`ContextStopped` = the field.  (`DebugLogger` assigning `defaultDaemon.logger` instead of `d.logger` is how the code is.) -/
+
+theorem C20_decisions_GetRunningBackgroundWorkers : Hive.Gen.C20Wrap.conds_GetRunningBackgroundWorkers = [
+  "result := make([]string, 0)", "range d.shutdownOrderWorker", "if !d.workers[name].running.Load()",
+  "result = append(result, name)", "for i < j", "i, j := 0, len(result)-1", "i, j = i+1, j-1",
+  "result[i], result[j] = result[j], result[i]", "return result"] := by decide
+
+theorem C20_decisions_getWorkersAndShutdownOrder : Hive.Gen.C20Wrap.conds_getWorkersAndShutdownOrder = [
+  "workers := make(map[string]*worker)", "range d.workers", "workers[k] = v",
+  "shutdownOrderWorker := make([]string, len(d.shutdownOrderWorker))", "return workers, shutdownOrderWorker"] := by decide
+
+theorem C20_decisions_runBackgroundWorker : Hive.Gen.C20Wrap.conds_runBackgroundWorker = [
+  "worker := d.workers[name]", "shutdownOrderWaitGroup := d.wgPerSameShutdownOrder[worker.shutdownOrder]",
+  "d.runningWorkers++", "if d.logger != nil", "if d.logger != nil"] := by decide
+
+theorem C20_decisions_BackgroundWorker : Hive.Gen.C20Wrap.conds_BackgroundWorker = [
+  "if d.IsStopped()", "return ErrDaemonAlreadyStopped", "if d.IsStopped()", "return ErrDaemonAlreadyStopped",
+  "exWorker, workerExistsAlready := d.workers[name]", "if workerExistsAlready", "if !d.running.Load()",
+  "return ierrors.Wrapf(ErrDuplicateBackgroundWorker, \"tried to overwrite existing background worker (%s)\", name)",
+  "if exWorker.running.Load()",
+  "return ierrors.Wrapf(ErrExistingBackgroundWorkerStillRunning, \"%s is still running\", name)",
+  "if len(order) > 0 && order[0] != 0", "shutdownOrder = order[0]", "shutdownOrder = 0", "if !ok",
+  "_, ok := d.wgPerSameShutdownOrder[shutdownOrder]", "d.wgPerSameShutdownOrder[shutdownOrder] = &sync.WaitGroup{}",
+  "ctx, ctxCancel := context.WithCancel(context.Background())",
+  "d.workers[name] = &worker{ ctx: ctx, ctxCancel: ctxCancel, handler: handler, shutdownOrder: shutdownOrder, }",
+  "d.shutdownOrderWorker = append(d.shutdownOrderWorker, name)",
+  "return d.workers[d.shutdownOrderWorker[i]].shutdownOrder > d.workers[d.shutdownOrderWorker[j]].shutdownOrder",
+  "if d.IsRunning()", "return nil"] := by decide
+
+theorem C20_decisions_DebugLogger : Hive.Gen.C20Wrap.conds_DebugLogger = [
+  "defaultDaemon.logger = logger"] := by decide
+
+theorem C20_decisions_Start : Hive.Gen.C20Wrap.conds_Start = [
+  "if d.IsStopped()", "return", "if d.IsStopped()", "return", "if !d.IsRunning()", "range d.workers"] := by decide
+
+theorem C20_decisions_Run : Hive.Gen.C20Wrap.conds_Run = [
+  "for d.runningWorkers > 0"] := by decide
+
+theorem C20_decisions_shutdown : Hive.Gen.C20Wrap.conds_shutdown = [
+  "if d.logger != nil", "if !d.IsRunning()", "return"] := by decide
+
+theorem C20_decisions_stopWorkers : Hive.Gen.C20Wrap.conds_stopWorkers = [
+  "workers, shutdownOrderWorker := d.getWorkersAndShutdownOrder()", "if len(shutdownOrderWorker) > 0",
+  "prevPriority := workers[shutdownOrderWorker[0]].shutdownOrder", "range shutdownOrderWorker",
+  "worker := workers[name]", "if !worker.running.Load()", "if worker.shutdownOrder < prevPriority",
+  "prevPriority = worker.shutdownOrder", "if d.logger != nil"] := by decide
+
+theorem C20_decisions_cleanupWorker : Hive.Gen.C20Wrap.conds_cleanupWorker = [
+  "d.runningWorkers--", "if d.IsStopped()", "return"] := by decide
+
+theorem C20_decisions_removeWorkerFromShutdownOrder : Hive.Gen.C20Wrap.conds_removeWorkerFromShutdownOrder = [
+  "if d.shutdownOrderWorker == nil", "return", "range d.shutdownOrderWorker", "if exName != name",
+  "if i < len(d.shutdownOrderWorker)-1", "d.shutdownOrderWorker[len(d.shutdownOrderWorker)-1] = \"\"",
+  "d.shutdownOrderWorker = d.shutdownOrderWorker[:len(d.shutdownOrderWorker)-1]"] := by decide
+
+theorem C20_decisions_clear : Hive.Gen.C20Wrap.conds_clear = [
+  "d.workers = nil", "d.shutdownOrderWorker = nil", "d.wgPerSameShutdownOrder = nil"] := by decide
+
+theorem C20_decisions_Shutdown : Hive.Gen.C20Wrap.conds_Shutdown = [] := by decide
+
+theorem C20_decisions_ShutdownAndWait : Hive.Gen.C20Wrap.conds_ShutdownAndWait = [] := by decide
+
+theorem C20_decisions_IsRunning : Hive.Gen.C20Wrap.conds_IsRunning = [
+  "return d.running.Load()"] := by decide
+
+theorem C20_decisions_IsStopped : Hive.Gen.C20Wrap.conds_IsStopped = [
+  "return d.stopped.Load()"] := by decide
+
+theorem C20_decisions_ContextStopped : Hive.Gen.C20Wrap.conds_ContextStopped = [
+  "return d.stoppedCtx"] := by decide
 
 /-! ## Regenerated tie: the synchronisation skeletons the protocol model was written against
 
